@@ -685,6 +685,106 @@ def _split_tuple_assignments(fn):
         i += 1
 
 
+def _push_unpack_to_defs(fn):
+  """C14: `T = (a, b)` on some branches, later `x, y = T` (the only read of
+  T) -> `x, y = (a, b)` at each definition, when x / y do not occur between
+  the first definition and the unpacking (all in one block).  Likewise
+  `T = A` / `T = B` on branches then `x = T`: the branches define x."""
+  loads, _ = _name_uses(fn)
+  a = fn.args
+  params = {x.arg for x in a.posonlyargs + a.args + a.kwonlyargs}
+  for x in (a.vararg, a.kwarg):
+    if x is not None:
+      params.add(x.arg)
+  for parent in ast.walk(fn):
+    for blk in _canon_blocks(parent):
+      for j, st in enumerate(blk):
+        if not (isinstance(st, ast.Assign) and len(st.targets) == 1 and
+                isinstance(st.value, ast.Name)):
+          continue
+        plain = isinstance(st.targets[0], ast.Name)  # `x = T`: T becomes x
+        if not plain and not (isinstance(st.targets[0], ast.Tuple) and all(
+            isinstance(t, ast.Name) for t in st.targets[0].elts)):
+          continue
+        tname = st.value.id
+        telts = [st.targets[0]] if plain else st.targets[0].elts
+        names = {t.id for t in telts}
+        k = len(telts)
+        if loads.get(tname, 0) != 1 or tname in names or len(names) != k or \
+            tname in params:
+          continue
+        firsts = [i for i in range(j) if any(
+            isinstance(x, ast.Name) and x.id == tname
+            for x in ast.walk(blk[i]))]
+        if not firsts:
+          continue
+        span = blk[firsts[0]:j]
+        inside = []
+        for b in span:
+          for n in ast.walk(b):
+            if isinstance(n, ast.Assign) and len(n.targets) == 1 and \
+                isinstance(n.targets[0], ast.Name) and \
+                n.targets[0].id == tname:
+              inside.append(n)
+        stores_in_span = sum(
+            1 for b in span for n in ast.walk(b)
+            if isinstance(n, ast.Name) and n.id == tname and
+            isinstance(n.ctx, ast.Store))
+        total_stores = sum(
+            1 for n in ast.walk(fn) if isinstance(n, ast.Name) and
+            n.id == tname and isinstance(n.ctx, (ast.Store, ast.Del)))
+        if len(inside) != stores_in_span or stores_in_span != total_stores:
+          continue
+        ok = plain or all(
+            (isinstance(n.value, ast.Tuple) and len(n.value.elts) == k
+             and not any(isinstance(v, ast.Starred) for v in n.value.elts)) or
+            (isinstance(n.value, ast.Constant) and n.value.value is None)
+            for n in inside)
+        if plain and len(inside) < 2:
+          continue  # a single definition is C1's business
+        if not ok or any(isinstance(x, ast.Name) and x.id in names
+                         for b in span for x in ast.walk(b)):
+          continue
+        if any(isinstance(x, (ast.FunctionDef, ast.Lambda, ast.AsyncFunctionDef))
+               for b in span for x in ast.walk(b)):
+          continue
+        for n in inside:
+          if plain:
+            n.targets = [ast.copy_location(ast.Name(
+                id=telts[0].id, ctx=ast.Store()), n)]
+          elif isinstance(n.value, ast.Tuple):
+            n.targets = [ast.copy_location(ast.Tuple(
+                elts=[ast.copy_location(ast.Name(id=t.id, ctx=ast.Store()), n)
+                      for t in st.targets[0].elts], ctx=ast.Store()), n)]
+          else:
+            n.targets = [ast.copy_location(ast.Name(
+                id='_unused_' + tname, ctx=ast.Store()), n)]
+        del blk[j]
+        if not blk:
+          blk.append(ast.copy_location(ast.Pass(), st))
+        return True
+  return False
+
+
+def _strip_bool(e):
+  """C15: `bool(X)` in a truth-test position is X."""
+  if isinstance(e, ast.Call) and isinstance(e.func, ast.Name) and \
+      e.func.id == 'bool' and len(e.args) == 1 and not e.keywords and \
+      not isinstance(e.args[0], ast.Starred):
+    return _strip_bool(e.args[0])
+  if isinstance(e, ast.UnaryOp) and isinstance(e.op, ast.Not):
+    e.operand = _strip_bool(e.operand)
+  elif isinstance(e, ast.BoolOp):
+    e.values = [_strip_bool(v) for v in e.values]
+  return e
+
+
+def _strip_bool_in_tests(fn):
+  for n in ast.walk(fn):
+    if isinstance(n, (ast.If, ast.While, ast.IfExp, ast.Assert)):
+      n.test = _strip_bool(n.test)
+
+
 def _canon_function(fn):
   # two rounds: folding a temporary (C1/C6) can expose a shape of the first
   # group (`r = any(...); return r`)
@@ -693,6 +793,10 @@ def _canon_function(fn):
 
 
 def _canon_function_once(fn):
+  _strip_bool_in_tests(fn)
+  for _ in range(4):
+    if not _push_unpack_to_defs(fn):
+      break
   _split_tuple_assignments(fn)
   _expand_next_searches(fn)
   _expand_conditional_expressions(fn)
